@@ -77,10 +77,13 @@ Section Rebuild.
     end.
 
   (* graph state right before steps are dispatched; None = the director died with a ConsistencyError *)
-  Definition watch_rebuild_pre (g : G) (items : list item) : option G :=
+  Definition watch_rebuild_pre_with (commit : G -> list path -> list path -> option G)
+                                    (g : G) (items : list item) : option G :=
     let w := fold_changes (change_is_relevant below matches g) (relevant_paths_under below g) items ws_empty in
-    watch_commit below on_action on_nglob_change hash_fs matches universe (fail_watch g)
-                 (ws_updated w) (ws_deleted w).
+    commit (fail_watch g) (ws_updated w) (ws_deleted w).
+  (* the commit is the generated statement list of run_once (model/Watch.v run_commit commit_program) *)
+  Definition watch_rebuild_pre : G -> list item -> option G :=
+    watch_rebuild_pre_with (watch_commit below on_action on_nglob_change hash_fs matches universe).
 
   Definition restart_pre (g : G) : option G :=
     startup_rescan below on_action on_nglob_change hash_fs exists_fs matches universe
